@@ -45,7 +45,7 @@ def _deficit_stress(draw: Any, max_groups: int) -> list[dict[str, Any]]:
     and the surplus of the others has to be redistributed.
     """
     out = []
-    n = draw(st.integers(3, max(3, max_groups)))
+    n = draw(st.integers(3, max(3, max_groups + 1)))
     for _ in range(n):
         incl = float(draw(st.sampled_from([500, 1000, 2000, 5000])))
         e_bat = float(draw(st.sampled_from([0, 50, 100, 200, 250])))
@@ -62,8 +62,9 @@ def _deficit_stress(draw: Any, max_groups: int) -> list[dict[str, Any]]:
 
 
 @st.composite
-def groups(draw: Any, max_groups: int = 4, grid_only: bool = False, multi: bool = True) -> list[dict[str, Any]]:
-    if draw(st.integers(0, 4)) == 0:
+def groups(draw: Any, max_groups: int = 4, grid_only: bool = False, multi: bool = True,
+           stress_pct: int = 20) -> list[dict[str, Any]]:
+    if draw(st.integers(0, 99)) < stress_pct:
         return draw(_deficit_stress(max_groups))
     out = []
     for _ in range(draw(st.integers(1, max_groups))):
@@ -252,8 +253,8 @@ def request_power(case_groups: list[dict[str, Any]], req: dict[str, Any], nudge:
 def request_strategy() -> st.SearchStrategy[dict[str, Any]]:
     return st.fixed_dictionaries({
         "sign": st.sampled_from([1, -1]),
-        "kind": st.sampled_from(["excl", "incl", "between", "between", "beyond", "near_excl", "near_excl"]),
-        "frac": st.one_of(st.sampled_from([0.001, 0.5, 0.999]), st.floats(0.0, 1.0)),
+        "kind": st.sampled_from(["excl", "incl", "between", "between", "beyond", "near_excl", "near_excl", "near_excl"]),
+        "frac": st.one_of(st.sampled_from([0.001, 0.01, 0.1, 0.5, 0.999]), st.floats(0.0, 1.0)),
     })
 
 
